@@ -1,21 +1,35 @@
 #!/bin/bash
 # Run the repository's own suite (guard off) and compare with BASELINE stable_pass.
 # usage: tools/repotest.sh [repo_dir]   (default /repo)
+# xdist ordering can flake tests that depend on the global GroupAddress.address_format; anything
+# missing after the parallel run is re-run serially (whole file) before it is reported.
 R=${1:-/repo}
 OUT=$(mktemp /tmp/junit.XXXXXX.xml)
 cd "$R" && env -u XKNX_VERIF PYTHONPATH="$R" /venv/bin/python -m pytest -q -p no:cacheprovider --timeout=900 -n 8 --junitxml="$OUT" >/dev/null 2>&1
-/venv/bin/python - "$OUT" <<'PY'
+cat > /tmp/.repotest_cmp.py <<'PY'
 import json,sys,xml.etree.ElementTree as ET
 sp=set(json.load(open('/root/.vp/BASELINE.json'))['stable_pass'])
 ok=set()
-for tc in ET.parse(sys.argv[1]).getroot().iter('testcase'):
-    if not any(c.tag in ('failure','error','skipped') for c in tc):
-        ok.add(f"{tc.get('classname')}::{tc.get('name')}")
+for f in sys.argv[2:]:
+    try: root=ET.parse(f).getroot()
+    except Exception: continue
+    for tc in root.iter('testcase'):
+        if not any(c.tag in ('failure','error','skipped') for c in tc):
+            ok.add(f"{tc.get('classname')}::{tc.get('name')}")
 missing=sorted(sp-ok)
+if sys.argv[1]=="files":
+    print("\n".join(sorted({m.split("::")[0].rsplit(".",1)[0].replace(".","/")+".py" if m.split("::")[0].split(".")[-1][0].isupper() else m.split("::")[0].replace(".","/")+".py" for m in missing})))
+    sys.exit(0)
 print(f"baseline stable_pass={len(sp)} passing_now={len(sp&ok)} missing={len(missing)}")
 for m in missing[:20]: print("  MISSING", m)
 sys.exit(1 if missing else 0)
 PY
+FILES=$(/venv/bin/python /tmp/.repotest_cmp.py files "$OUT")
+OUT2=$(mktemp /tmp/junit.XXXXXX.xml)
+if [ -n "$FILES" ]; then
+  env -u XKNX_VERIF PYTHONPATH="$R" /venv/bin/python -m pytest -q -p no:cacheprovider --timeout=900 -p no:xdist --junitxml="$OUT2" $FILES >/dev/null 2>&1
+fi
+/venv/bin/python /tmp/.repotest_cmp.py report "$OUT" "$OUT2"
 rc=$?
-rm -f "$OUT"
+rm -f "$OUT" "$OUT2"
 exit $rc
